@@ -97,6 +97,14 @@ S["two_events_same_step"] = dict(
     conns=[C("A", "Z", "eo", "ti"), C("Q", "Z", "eo", "ti"), C("B", "Z", "po", "mi")])
 S["T_to_H_trigger"] = dict(until=3, sims=[T("A"), H("B", emit_default=0), E("Cc")],
                            conns=[C("A", "B", "po", "ti"), C("B", "Cc", "eo", "ti")])
+# ---- initial data of several connections from one source attribute (F14, F15) -------------
+S["weak_and_shift_init"] = dict(until=3, groups=G1, sims=[T("A", group="g"), T("B", group="g")],
+                                conns=[C("A", "B", "po", "mi", weak=True, init=True),
+                                       C("A", "B", "po", "po", shift=1, init=True)])
+S["init_shared_cache"] = dict(until=2, groups=G1,
+                              sims=[T("A", group="g"), H("B", group="g", next_default=1)],
+                              conns=[C("A", "B", "po", "ti", weak=True),
+                                     C("A", "B", "po", "mi", weak=True, init=True)])
 # ---- same-time loops ------------------------------------------------------------------
 S["weak_loop"] = dict(until=2, max_loop=5, groups=G1,
                       sims=[E("A", group="g", init_event=0, emit=[0, 0], next=[None, None, 1]),
